@@ -838,7 +838,12 @@ fn gen_c07(rng: &mut Rng, ctx: &mut Ctx, rep: &mut Report, emit: Emit) {
     for i in 0..ctx.n(10_000, 1_000_000) {
         let mut b = if i % 3 == 0 { gen_bundle(rng, &Opts { wf: true, max_blocks: 6 }) } else { gen_valid_bundle(rng) };
         if i % 3 == 1 {
-            match rng.below(21) {
+            match rng.below(23) {
+                // a second block of the payload type that holds opaque data (only the API can build it; it passes its own
+                // validation): before / after the payload block, numbered 0 or above — which block counts as "the payload
+                // block" must not depend on where the extra one sits
+                21 | 22 => { let c = new_canonical_block(1, *rng.pick(&[0u64, 70, 71]), 0, CanonicalData::Unknown(vec![7, 7]));
+                             if rng.chance(1, 2) { b.canonicals.insert(0, c); } else { b.canonicals.push(c); } }
                 // dtn endpoint IDs as they can arrive from the wire: no "//", multi-byte characters around every
                 // byte offset the validation may slice at (a verdict, not a panic, is required for each)
                 19 | 20 => {
